@@ -86,14 +86,14 @@ Example c05_nonvacuous :
   genesis_ok c05_bank 2 /\ Forall valid_step c05_hist
   /\ (let s := run (init c05_bank 2) c05_hist in
       match get 1 (pools s) with
-      | Some p => map (fun xf => (fst xf, f_locked (snd xf))) (p_farmers p) = [(1, 2); (2, 1)]
-                  /\ Forall (fun r => (r_rps r * 2) mod P18 <> 0) (p_rules p)
-                  /\ bal (bank s) COLL 3 = 1
-      | None => False
-      end).
+      | Some p => eqb (map (fun xf => (fst xf, f_locked (snd xf))) (p_farmers p)) [(1, 2); (2, 1)]
+                  && forallb (fun r => negb ((r_rps r * 2) mod P18 =? 0)) (p_rules p)
+                  && (bal (bank s) COLL 3 =? 3)
+      | None => false
+      end) = true.
 Proof.
   split; [|split].
   - split; [lia|]. intros d. vm_compute. split; [reflexivity|discriminate].
   - unfold c05_hist. repeat constructor; try discriminate.
-  - vm_compute. split; [reflexivity|]. split; [|reflexivity]. repeat constructor; discriminate.
+  - vm_compute. reflexivity.
 Qed.
